@@ -17,7 +17,7 @@ use neurons::tensor::Tensor;
 pub fn meta(ctx: &Ctx) -> Meta {
     let t = ctx.tier.thorough();
     Meta {
-        rule: format!("(a) single layers through their public backward(): {} of the lattice L for convolution, deconvolution, max-pool (linear activation; ring x E5), dense n,m in 1..4 x E5 x bias, input and upstream gradient given flat or as CxHxW: weight/kernel, bias and INPUT gradient vs the dual-number derivative of sum_k g_k*out_k. (b) networks: every layer sequence of <= {} tokens over 5 input shapes with <= {} deviations x 7 objectives (cycled), through Network::backward and through one learn() step with SGD (parameter change = -lr*gradient); soft-max head of width 2,3,5 under cross-entropy on every sequence of <= {} tokens: derivative of CE(softmax(z)). Data re-drawn until every ReLU pre-activation and pool runner-up is >= 0.1 from a kink/tie. Non-trivial = case whose reference gradient has >= 2 distinct non-zero entries",
+        rule: format!("(a) single layers through their public backward(): {} of the lattice L for convolution, deconvolution, max-pool (linear activation; ring x E5), dense n,m in 1..4 x E5 x bias, input and upstream gradient given flat or as CxHxW: weight/kernel, bias and INPUT gradient vs the dual-number derivative of sum_k g_k*out_k. (b) networks: every layer sequence of <= {} tokens over 5 input shapes with <= {} deviations x 7 objectives (cycled), through Network::backward and through one learn() step with SGD (parameter change = -lr*gradient); soft-max head of width 2,3,5 under cross-entropy on every sequence of <= {} tokens: derivative of CE(softmax(z)); networks also built a second way, through placeholder activations and set_activation. Data re-drawn until every ReLU pre-activation and pool runner-up is >= 0.1 from a kink/tie. Non-trivial = case whose reference gradient has >= 2 distinct non-zero entries",
             if t { "the FULL lattice" } else { "the ring of <= 2 deviations" }, if t { 3 } else { 2 }, if t { 2 } else { 1 }, if t { 2 } else { 1 }),
         bound: "kernel <= 3, stride <= 2(3), padding <= 2, dilation <= 2, planes <= 6x7, depth <= 3 (+ soft-max head)".into(),
         exhaustive: true,
@@ -473,6 +473,10 @@ pub fn cases(ctx: &Ctx) -> Vec<Kv> {
     for (i, net) in nets.iter().enumerate() {
         let o = OBJ7[i % 7];
         out.push(Kv::new().put("kind", "net").put("net", net.name()).put("obj", o.name()));
+        // the same network reached through placeholder activations + set_activation
+        if net.layers.iter().any(|l| l.act().is_some()) && (t || i % 2 == 0) {
+            out.push(Kv::new().put("kind", "net").put("net", net.name()).put("obj", o.name()).put("via", "set_activation"));
+        }
     }
     let prefixes = sequences(&INPUTS, if t { 2 } else { 1 }, if t { 1 } else { 1 }, &TOKS);
     for (i, p) in prefixes.iter().enumerate() {
@@ -484,6 +488,7 @@ pub fn cases(ctx: &Ctx) -> Vec<Kv> {
             net.layers.push(L::Dense { n: width, act: Act::Softmax, bias: true, drop: None });
             if ref_shapes(&net).is_ok() {
                 out.push(Kv::new().put("kind", "softmax").put("net", net.name()));
+                out.push(Kv::new().put("kind", "softmax").put("net", net.name()).put("via", "set_activation"));
             }
         }
     }
@@ -510,8 +515,24 @@ pub fn check(seed: u64, case: &Kv, rep: &mut Report) {
             check_layer(&Net::new(input, vec![l]), case.bool("flat_in"), case.bool("flat_grad"), seed, case, rep);
         }
         "dense" => check_layer(&Net::parse(case.get("net")), false, false, seed, case, rep),
-        "net" => check_net(&Net::parse(case.get("net")), Obj::parse(case.get("obj")), false, seed, case, rep),
-        _ => check_net(&Net::parse(case.get("net")), Obj::CE, true, seed, case, rep),
+        "net" | "softmax" => {
+            let via = case.opt("via") == Some("set_activation");
+            VIA_SET_ACTIVATION.with(|v| v.set(via));
+            let mut tmp = Report::new();
+            if case.get("kind") == "net" {
+                check_net(&Net::parse(case.get("net")), Obj::parse(case.get("obj")), false, seed, case, &mut tmp);
+            } else {
+                check_net(&Net::parse(case.get("net")), Obj::CE, true, seed, case, &mut tmp);
+            }
+            VIA_SET_ACTIVATION.with(|v| v.set(false));
+            if via {
+                for v in tmp.violations.iter_mut() {
+                    v.key = format!("{} (network built through set_activation)", v.key);
+                }
+            }
+            rep.merge(tmp);
+        }
+        _ => unreachable!(),
     }
 }
 
